@@ -134,6 +134,8 @@ def touches(p, evs):
                 t.add('NEW_ASYNC_PTR')
             if n == 'std::mem::MaybeUninit::new' and a and a[-1][0] == 'param':
                 t.add('MU_NEW_PARAM')
+            if n == 'pointer::KanalPtr::new_unchecked' and a and a[-1][0] == 'param':
+                t.add('MU_NEW_PARAM')  # the address-storing constructor (its own body is checked as such) applied to the argument
         if e.kind == 'wr' and e.place[0] == 'deref' and cell_get(e.place[1]):
             t.add('CELL_WRITE')
     return t
